@@ -30,6 +30,8 @@ namespace {
       std::function<const void*(std::size_t)> at;           // *position(i)
       std::function<std::vector<const void*>()> iter;       // begin() .. end()
       std::function<long()> steps;                          // ++ from begin() until == end()
+      std::function<std::vector<const void*>()> riter;      // --end() .. begin(), through operator->
+      std::function<std::vector<const void*>()> post;       // it++ from begin()
       std::function<std::size_t()> hsize;                   // helper size (or size)
       std::function<const void*(std::size_t)> hat;          // helper operator[] (or at)
       std::map<const void*, int> ident;
@@ -50,6 +52,17 @@ namespace {
          long n = 0;
          for (auto it = seq->begin(); it != seq->end() and n < 10000; ++it) ++n;
          return n;
+      };
+      sj.riter = [seq, key] {
+         std::vector<const void*> v;
+         auto it = seq->end();
+         while (it != seq->begin() and v.size() < 10000) { --it; v.push_back(key(*it.operator->())); }
+         return v;
+      };
+      sj.post = [seq, key] {
+         std::vector<const void*> v;
+         for (auto it = seq->begin(); it != seq->end() and v.size() < 10000; ) { auto old = it++; v.push_back(key(*old)); }
+         return v;
       };
       sj.hsize = sj.size;
       sj.hat = sj.at;
@@ -322,6 +335,10 @@ namespace {
       }
       o.set("at", at).set("atmax", guarded(sj, [&] { return sj.at(std::numeric_limits<std::size_t>::max()); }));
       try { for (auto p : sj.iter()) it.push(id_of(sj, p)); } catch (const std::logic_error&) { it.push(-1); }
+      auto rit = Value::array(), pit = Value::array();
+      try { for (auto p : sj.riter()) rit.push(id_of(sj, p)); } catch (const std::logic_error&) { rit.push(-1); }
+      try { for (auto p : sj.post()) pit.push(id_of(sj, p)); } catch (const std::logic_error&) { pit.push(-1); }
+      o.set("riter", rit).set("post", pit);
       o.set("iter", it).set("steps", sj.steps()).set("hsize", static_cast<long>(sj.hsize())).set("hat", hat);
       return o;
    }
@@ -341,7 +358,7 @@ namespace {
 
    std::string first_difference(const Value& e, const Value& g)
    {
-      for (auto f : {"size", "empty", "at", "atmax", "iter", "steps", "hsize", "hat"})
+      for (auto f : {"size", "empty", "at", "atmax", "iter", "riter", "post", "steps", "hsize", "hat"})
          if (not vj::equal(e.at(f), g.at(f))) return f;
       return "other";
    }
